@@ -283,6 +283,12 @@ fn run_range(rc: &RangeCmd, t0: Instant, warmed: &mut HashSet<String>) {
             }
         }
         index += rc.step;
+        // a tree on which this many runs of one family fail is broken beyond doubt: the rest of
+        // the shard adds nothing (and each failing run may cost a spin budget or a watchdog)
+        if stats.violations >= 100 {
+            *stats.probes.entry("shard_stopped_early_after_100_violating_runs".into()).or_insert(0) += 1;
+            break;
+        }
     }
     stats.wall_ms = started.elapsed().as_millis() as u64;
     // hash sets go to a side file: 8-byte little-endian words, first the count of body hashes
